@@ -1,6 +1,10 @@
 package main
 
 import (
+	"strconv"
+	"net/http/httptest"
+	"net/http"
+	"path/filepath"
 	"context"
 	"encoding/json"
 	"fmt"
@@ -371,6 +375,168 @@ func c17RandReport(r *hx.Run) c17Report {
 	return rep
 }
 
+// c17Texts: the step from reports to comments (makeComments), on files that exist so that diagnostics are rendered.
+//  (T1) every report's own text - its diagnostic message when it has one, else its summary - is in some comment for its
+//       path and line;
+//  (T2) the comments for a set of reports T do not depend on unrelated reports S that come before them: every comment
+//       made for T alone is also made, with the same text, for S ++ T (S and T on different files).
+func c17Texts(r *hx.Run) {
+	rr := r.Rng
+	dir := filepath.Join(r.OutDir, "c17files")
+	_ = os.MkdirAll(dir, 0o755)
+	var body strings.Builder
+	for i := 1; i <= 30; i++ {
+		fmt.Fprintf(&body, "line %d of the file\n", i)
+	}
+	pa, pb := filepath.Join(dir, "a.yml"), filepath.Join(dir, "b.yml")
+	_ = os.WriteFile(pa, []byte(body.String()), 0o644)
+	_ = os.WriteFile(pb, []byte(strings.ReplaceAll(body.String(), "file", "other file")), 0o644)
+	mk := func(path string) reporter.Report {
+		first := 1 + rr.Intn(6)*4
+		anchor := checks.AnchorAfter
+		if rr.Intn(4) == 0 {
+			anchor = checks.AnchorBefore
+		}
+		rep := reporter.Report{Path: discovery.Path{Name: path, SymlinkTarget: path}, ModifiedLines: []int{first},
+			Problem: checks.Problem{Reporter: hx.Pick(rr, []string{"alerts/template", "rule/dependency"}), Summary: hx.Pick(rr, []string{"template uses non-existent label", "rule results used by another rule"}),
+				Details: hx.Pick(rr, []string{"", "", "some details"}), Severity: checks.Severity(1 + rr.Intn(3)), Lines: diags.LineRange{First: first, Last: first + 1}, Anchor: anchor}}
+		if rr.Intn(4) != 0 {
+			rep.Problem.Diagnostics = []diags.Diagnostic{{Message: hx.Pick(rr, []string{"label job is gone", "label instance is gone", "used by rule X", "used by rule Y"}),
+				Pos: diags.PositionRanges{{Line: first, FirstColumn: 1, LastColumn: 20}}, FirstColumn: 1 + rr.Intn(3), LastColumn: 5 + rr.Intn(3)}}
+		}
+		return rep
+	}
+	var S, T []reporter.Report
+	for i, n := 0, rr.Intn(3); i < n; i++ {
+		S = append(S, mk(pa))
+	}
+	for i, n := 0, 1+rr.Intn(4); i < n; i++ {
+		T = append(T, mk(pb))
+	}
+	type key struct {
+		path, text string
+		line       int
+	}
+	comments := func(reps []reporter.Report) map[key]int {
+		out := map[key]int{}
+		for _, p := range reporter.VerifMakeComments(reporter.NewSummary(reps), true) {
+			path, text, line, _ := reporter.VerifPendingFields(p)
+			out[key{path, text, line}]++
+		}
+		return out
+	}
+	both := comments(append(append([]reporter.Report{}, S...), T...))
+	alone := comments(T)
+	show := func(reps []reporter.Report) []string {
+		var o []string
+		for _, x := range reps {
+			m := ""
+			if len(x.Problem.Diagnostics) > 0 {
+				m = x.Problem.Diagnostics[0].Message
+			}
+			o = append(o, fmt.Sprintf("%s %s sev=%d lines=%d-%d before=%v %q / %q / %q", filepath.Base(x.Path.Name), x.Problem.Reporter, x.Problem.Severity, x.Problem.Lines.First, x.Problem.Lines.Last,
+				x.Problem.Anchor == checks.AnchorBefore, x.Problem.Summary, x.Problem.Details, m))
+		}
+		return o
+	}
+	r.Case(fmt.Sprint(show(S), show(T)), len(T) > 1 || len(S) > 0)
+	r.Count("comment-text-cases")
+	for k, n := range alone {
+		if both[k] < n {
+			r.Violate(hx.Violation{Class: "comment-text-depends-on-other-reports", Input: map[string]any{"S": show(S), "T": show(T)},
+				Observed: map[string]any{"comment_for_T_alone": k.text, "line": k.line}, Expected: "the same comment when unrelated reports on another file precede T"})
+			return
+		}
+	}
+	for _, x := range T {
+		want := x.Problem.Summary
+		if len(x.Problem.Diagnostics) > 0 && x.Problem.Anchor == checks.AnchorAfter {
+			want = x.Problem.Diagnostics[0].Message
+		}
+		found := false
+		for k := range alone {
+			if k.path == x.Path.Name && strings.Contains(k.text, want) {
+				found = true
+			}
+		}
+		if !found {
+			r.Violate(hx.Violation{Class: "problem-text-in-no-comment", Input: map[string]any{"T": show(T)}, Observed: map[string]any{"missing": want},
+				Expected: "every reported problem is covered by a comment carrying its text"})
+			return
+		}
+	}
+}
+
+// c17GithubPaging: the real GitHub reporter against a fake API that pages its lists the way github.com does (30 items
+// per page unless asked otherwise, a Link header naming the next page): List must return every review comment and
+// Destinations every file of the pull request, however many there are.
+func c17GithubPaging(r *hx.Run, nComments, nFiles int) {
+	page := func(w http.ResponseWriter, req *http.Request, total int, item func(i int) string) {
+		per, pg := 30, 1
+		if v, err := strconv.Atoi(req.URL.Query().Get("per_page")); err == nil && v > 0 {
+			per = min(v, 100)
+		}
+		if v, err := strconv.Atoi(req.URL.Query().Get("page")); err == nil && v > 0 {
+			pg = v
+		}
+		lo, hi := (pg-1)*per, min(pg*per, total)
+		var items []string
+		for i := lo; i < hi; i++ {
+			items = append(items, item(i))
+		}
+		if hi < total {
+			q := req.URL.Query()
+			q.Set("page", strconv.Itoa(pg+1))
+			w.Header().Set("Link", fmt.Sprintf("<http://%s%s?%s>; rel=\"next\"", req.Host, req.URL.Path, q.Encode()))
+		}
+		w.Header().Set("Content-Type", "application/json")
+		fmt.Fprint(w, "["+strings.Join(items, ",")+"]")
+	}
+	srv := httptest.NewServer(http.HandlerFunc(func(w http.ResponseWriter, req *http.Request) {
+		switch {
+		case strings.HasSuffix(req.URL.Path, "/pulls/1/comments"):
+			page(w, req, nComments, func(i int) string {
+				return fmt.Sprintf(`{"id":%d,"path":"rules/a.yml","line":%d,"body":"comment %d"}`, i+1, i+1, i)
+			})
+		case strings.HasSuffix(req.URL.Path, "/pulls/1/files"):
+			page(w, req, nFiles, func(i int) string {
+				return fmt.Sprintf(`{"filename":"rules/f%d.yml","patch":"@@ -1 +1 @@\n-a\n+b"}`, i)
+			})
+		default:
+			w.Header().Set("Content-Type", "application/json")
+			fmt.Fprint(w, "[]")
+		}
+	}))
+	defer srv.Close()
+	gr, err := reporter.NewGithubReporter(context.Background(), "v0", srv.URL, srv.URL, 5*time.Second, "token", "o", "r", 1, 50, "head", false)
+	if err != nil {
+		panic(err)
+	}
+	r.Case(fmt.Sprintf("github-paging %d %d", nComments, nFiles), nComments > 30 || nFiles > 30)
+	r.Count("github-paging-cases")
+	existing, err := gr.List(context.Background(), nil)
+	if err != nil || len(existing) != nComments {
+		r.Violate(hx.Violation{Class: "github-existing-comments-missed", Input: map[string]any{"comments_on_the_pull_request": nComments},
+			Observed: map[string]any{"listed": len(existing), "error": fmt.Sprint(err)}, Expected: "every existing comment is seen, so that none is created again"})
+		return
+	}
+	dsts, err := gr.Destinations(context.Background())
+	if err != nil || len(dsts) != 1 {
+		r.Violate(hx.Violation{Class: "github-files-missed", Input: map[string]any{"files": nFiles}, Observed: fmt.Sprint(err)})
+		return
+	}
+	missing := 0
+	for i := 0; i < nFiles; i++ {
+		if !reporter.VerifGithubHasDiff(dsts[0], fmt.Sprintf("rules/f%d.yml", i)) {
+			missing++
+		}
+	}
+	if missing > 0 {
+		r.Violate(hx.Violation{Class: "github-files-missed", Input: map[string]any{"files_in_the_pull_request": nFiles}, Observed: map[string]any{"not_seen": missing},
+			Expected: "every file of the pull request is seen, so that its problems get comments"})
+	}
+}
+
 func runC17(r *hx.Run, replay string) {
 	if replay != "" {
 		b, err := os.ReadFile(replay)
@@ -387,7 +553,11 @@ func runC17(r *hx.Run, replay string) {
 		return
 	}
 	rr := r.Rng
+	for _, n := range [][2]int{{0, 1}, {29, 30}, {30, 31}, {31, 29}, {65, 3}, {3, 100}, {131, 61}} {
+		c17GithubPaging(r, n[0], n[1])
+	}
 	for i := 0; i < r.N; i++ {
+		c17Texts(r)
 		cs := c17Case{Platform: hx.Pick(rr, []string{"gitlab", "gitlab", "github"}), Budget: rr.Intn(5)}
 		if rr.Intn(4) == 0 {
 			cs.Budget = 50
